@@ -288,6 +288,21 @@ func c14Check(c c14Case) error {
 	if dm := rig.DiffMem(ma, mb, 4); len(dm) > 0 {
 		return fmt.Errorf("running with a Logger changed memory at $%06X", dm[0])
 	}
+	// run C: a sink that starts failing after a few lines (full buffer, closed pipe) must not change the run either
+	mc := load(scpu)
+	fw := &failingWriter{okLines: 2}
+	sys.Logger = fw
+	p = rig.Safe(func() error { sys.RunUntil(never, budget); return nil })
+	sys.Logger = nil
+	if p != nil {
+		return fmt.Errorf("RunUntil with a failing Logger failed: %v", p)
+	}
+	if rc := scpu.Raw(); rc != ra {
+		return fmt.Errorf("running with a Logger whose Write fails after %d lines changed the final state: traced %+v, untraced %+v", fw.okLines, rc, ra)
+	}
+	if dm := rig.DiffMem(ma, mc, 4); len(dm) > 0 {
+		return fmt.Errorf("running with a failing Logger changed memory at $%06X", dm[0])
+	}
 	// expected lines
 	mt := load(twin)
 	var cyc uint64
@@ -316,6 +331,16 @@ func c14Check(c c14Case) error {
 		cyc += uint64(n)
 	}
 	return nil
+}
+
+type failingWriter struct{ okLines, n int }
+
+func (w *failingWriter) Write(p []byte) (int, error) {
+	w.n++
+	if w.n > w.okLines {
+		return 0, fmt.Errorf("sink full")
+	}
+	return len(p), nil
 }
 
 // c14RealMap runs a small loop whose last instruction ends exactly at $70:7FFF (the byte after it,
